@@ -208,7 +208,7 @@ func (ex *Exec) callBodyInline(st *State, fn *ssa.Function, args []Val, binds []
 
 // getterSummary: generated protobuf getters  func (x *T) GetF() F { if x != nil { return x.F }; return zero }
 func (ex *Exec) getterSummary(st *State, fn *ssa.Function, args []Val, resT types.Type) (Val, bool) {
-	if !isGenProto(fn) || !strings.HasPrefix(fn.Name(), "Get") || len(args) != 1 || len(fn.Blocks) != 3 {
+	if !(isGenProto(fn) || isSpbStatus(fn)) || !strings.HasPrefix(fn.Name(), "Get") || len(args) != 1 || len(fn.Blocks) != 3 {
 		return Val{}, false
 	}
 	recv := args[0]
@@ -742,4 +742,8 @@ func chlenArr(ch Val) string {
 		}
 	}
 	return "chlen"
+}
+
+func isSpbStatus(fn *ssa.Function) bool {
+	return fn.Pkg != nil && fn.Pkg.Pkg.Path() == "google.golang.org/genproto/googleapis/rpc/status"
 }
